@@ -50,6 +50,8 @@ Proof.
   intros Hne D e H K. unfold store in H. cbn [c_sessions] in H. destruct H as [<-|H]; [contradiction|].
   unfold del_sess in H. apply filter_In in H as [H _]. exact (D e H K).
 Qed.
+Lemma dead_in_store_new c en now sid : e_id en <> sid -> dead_in c now sid -> dead_in (store_new c en) now sid.
+Proof. intros Hne D. exact (dead_in_store {| c_sessions := c_sessions c; c_cmdmap := _ |} en now sid Hne D). Qed.
 Lemma expired_mono e now now' : now <= now' -> is_expired e now = true -> is_expired e now' = true.
 Proof.
   unfold is_expired. destruct (e_exp e) as [t|]; [|discriminate]. rewrite !Z.ltb_lt. lia.
@@ -261,7 +263,7 @@ Proof.
   destruct st as [s now]. cbn [fst snd]. intros D Hn.
   destruct ev as [en w|q wc|sid' w|dt|sid' w|w|q wc inv]; cbn [sstep].
   - cbn [fst snd]. split; [|intros o []]. apply dead_set; [exact D|].
-    apply dead_in_store; [apply (Hn en w); left; reflexivity|apply dead_cache_at; exact D].
+    apply dead_in_store_new; [apply (Hn en w); left; reflexivity|apply dead_cache_at; exact D].
   - destruct (handle_resumption s now q wc) as [[s' rep] res] eqn:E. cbn [fst snd]. split.
     + destruct (handle_cases s now q wc) as [(s1 & e & w & k & L & U & E')|[E' _]]; rewrite E' in E; inversion E; subst.
       * pose proof (dead_after_lookup s now sid (q_sid q) D) as D1. rewrite L in D1. cbn [fst] in D1.
@@ -344,6 +346,8 @@ Proof.
     constructor; auto. intro K. apply in_map_iff in K as (x & K1 & K2). apply filter_In in K2 as [K2 _].
     apply H1. rewrite <- K1. apply in_map. exact K2.
 Qed.
+Lemma sessions_ok_store_new c en : sessions_ok c -> sessions_ok (store_new c en).
+Proof. intro N. exact (sessions_ok_store {| c_sessions := c_sessions c; c_cmdmap := _ |} en N). Qed.
 Lemma sessions_ok_filter f c cm : sessions_ok c -> sessions_ok {| c_sessions := filter f (c_sessions c); c_cmdmap := cm |}.
 Proof.
   unfold sessions_ok. cbn [c_sessions]. induction (c_sessions c) as [|a l IH]; cbn [filter map]; intro N; [constructor|].
@@ -397,7 +401,7 @@ Qed.
 Lemma srv_ok_step st ev : srv_ok (fst st) -> srv_ok (fst (fst (sstep st ev))).
 Proof.
   destruct st as [s now]. cbn [fst]. intro K. destruct ev as [en w|q wc|sid' w|dt|sid' w|w|q wc inv]; cbn [sstep].
-  - cbn [fst]. apply srv_ok_set; [exact K|]. apply sessions_ok_store, srv_ok_cache_at, K.
+  - cbn [fst]. apply srv_ok_set; [exact K|]. apply sessions_ok_store_new, srv_ok_cache_at, K.
   - destruct (handle_cases s now q wc) as [(s1 & e & w & k & L & U & E')|[E' _]]; rewrite E'; cbn [fst].
     + apply srv_ok_store. pose proof (srv_ok_lookup s now (q_sid q) K) as K1. rewrite L in K1. exact K1.
     + apply srv_ok_lookup. exact K.
